@@ -525,3 +525,80 @@ def double_factorial_odd(k: int) -> int:
     for i in range(3, 2 * k - 2, 2):
         r *= i
     return r
+
+
+def refinements(tree):
+    """All binary refinements of a PTree, as PTrees.  Original nodes keep
+    name and features (on the node with the same clade); added nodes are
+    unnamed.  Independent of the package: children of a node with k children
+    are arranged by every rooted binary tree on k labelled items."""
+    from .plain import PTree
+
+    def shapes(n):
+        """list of nested structures: ('leaf', n) | ('orig', n, arrangement) where arrangement is
+        a nested 2-tuple over child structures."""
+        kids = tree.children[n]
+        if not kids:
+            return [("leaf", n)]
+        out = []
+        child_opts = [shapes(c) for c in kids]
+        for combo in itertools.product(*child_opts):
+            for arr in all_binary_on(list(combo)):
+                out.append(("orig", n, arr))
+        return out
+
+    def build(struct):
+        res = PTree()
+
+        def emit_struct(s, parent):
+            if s[0] == "leaf":
+                res.add(parent, tree.name[s[1]], tree.features[s[1]])
+                return
+            _, n, arr = s
+            idx = res.add(parent, tree.name[n], tree.features[n])
+            emit_arr_children(arr, idx)
+
+        def emit_arr_children(arr, idx):
+            # arr is a 2-tuple (a, b) of either structs or nested 2-tuples
+            for part in arr:
+                emit_arr(part, idx)
+
+        def emit_arr(part, parent):
+            if isinstance(part, tuple) and part and part[0] in ("leaf", "orig"):
+                emit_struct(part, parent)
+            else:
+                idx = res.add(parent, "", {})
+                emit_arr_children(part, idx)
+
+        emit_struct(struct, None)
+        return res
+
+    return [build(s) for s in shapes(tree.root)]
+
+
+def all_leaf_labelled_trees(labels):
+    """All rooted trees on the given leaf labels whose internal nodes have
+    >= 2 (unordered) children, as nested tuples of labels."""
+    labels = list(labels)
+    if len(labels) == 1:
+        return [labels[0]]
+
+    def partitions(items):
+        if not items:
+            yield []
+            return
+        first, rest = items[0], items[1:]
+        for k in range(len(rest) + 1):
+            for comb in itertools.combinations(range(len(rest)), k):
+                block = [first] + [rest[i] for i in comb]
+                remaining = [rest[i] for i in range(len(rest)) if i not in comb]
+                for p in partitions(remaining):
+                    yield [block] + p
+
+    out = []
+    for part in partitions(labels):
+        if len(part) < 2:
+            continue
+        for combo in itertools.product(*(all_leaf_labelled_trees(b) for b in part)):
+            out.append(tuple(combo))
+    return out
